@@ -26,12 +26,12 @@ import (
 	"encoding/json"
 	"errors"
 	"fmt"
+	"io"
 	"math/rand"
 	"os"
 	"os/exec"
 	"path/filepath"
 	"runtime"
-	"sort"
 	"strconv"
 	"strings"
 	"sync"
@@ -80,6 +80,8 @@ type bnAct struct {
 	Op  string `json:"op"`
 	S   int    `json:"s"`
 	H   int    `json:"h"`
+	S2  int    `json:"s2"`
+	H2  int    `json:"h2"`
 	K   int    `json:"k"`
 	Res string `json:"res"`
 }
@@ -167,6 +169,10 @@ type bnSource struct {
 	lastTip  int         // tip reported by the most recent backlog call (-1: none)
 	tipByH   map[int]int // free runs: tip reported to the most recent call with that height
 	onAccept func(k int) // called under mu when the take of event k is noticed
+
+	// strict replay: the next backlog call signals gateHit and waits for gate
+	// (holds the handler inside handleNewSubscription)
+	gate, gateHit chan struct{}
 }
 
 func bnNewSource(slots int) *bnSource {
@@ -202,12 +208,18 @@ func (s *bnSource) Notifications() <-chan BlockNtfn {
 
 func (s *bnSource) NotificationsSinceHeight(height uint32) ([]BlockNtfn, uint32, error) {
 	s.mu.Lock()
-	defer s.mu.Unlock()
 	s.syncLocked()
 	tip := s.accepted
 	s.lastTip = tip
 	if s.tipByH != nil {
 		s.tipByH[int(height)] = tip
+	}
+	gate, hit := s.gate, s.gateHit
+	s.gate, s.gateHit = nil, nil
+	s.mu.Unlock()
+	if gate != nil {
+		close(hit)
+		<-gate // the handler goroutine is held here: no event can be taken meanwhile
 	}
 	h := int(height)
 	if h == 0 || h == tip {
@@ -438,6 +450,80 @@ func (e *bnEnv) exec(in bnStepIn) bnStepOut {
 			out.Act.Res = "err"
 			e.cst[s] = 3
 		}
+	case "Subscribe2":
+		// Two calls in flight: the handler is held inside the registration
+		// of the first while the second call is made and gets past its id
+		// assignment (observed on the id counter, bounded), then released.
+		s1, s2 := a.S-1, a.S2-1
+		c0 := e.loops()
+		gate, hit := make(chan struct{}), make(chan struct{})
+		e.src.mu.Lock()
+		e.src.lastTip = -1
+		e.src.gate, e.src.gateHit = gate, hit
+		e.src.mu.Unlock()
+		cnt0 := atomic.LoadUint64(&e.m.subscriberCounter)
+		type res struct {
+			sub *Subscription
+			err error
+		}
+		r1, r2 := make(chan res, 1), make(chan res, 1)
+		go func() {
+			sub, err := e.m.NewSubscription(uint32(a.H))
+			r1 <- res{sub, err}
+		}()
+		held := true
+		select {
+		case <-hit:
+		case <-time.After(bnLong()):
+			held = false
+			bnExpired()
+		}
+		go func() {
+			sub, err := e.m.NewSubscription(uint32(a.H2))
+			r2 <- res{sub, err}
+		}()
+		for i := 0; held && atomic.LoadUint64(&e.m.subscriberCounter) < cnt0+2 && i < 400; i++ {
+			if i < 100 {
+				runtime.Gosched()
+			} else {
+				time.Sleep(50 * time.Microsecond)
+			}
+		}
+		close(gate)
+		e.src.mu.Lock()
+		e.src.gate, e.src.gateHit = nil, nil
+		e.src.mu.Unlock()
+		out.Act.Res = "ok"
+		for i, rc := range []chan res{r1, r2} {
+			s := []int{s1, s2}[i]
+			h := []int{a.H, a.H2}[i]
+			select {
+			case r := <-rc:
+				if r.err != nil {
+					e.cst[s] = 3
+					if errors.Is(r.err, ErrSubscriptionManagerStopped) {
+						out.Act.Res = "stopped"
+					} else {
+						out.Act.Res = "err"
+					}
+					continue
+				}
+				e.src.mu.Lock()
+				k := e.src.lastTip
+				e.src.mu.Unlock()
+				e.subs[s], e.cst[s], e.regH[s], e.regK[s] = r.sub, 1, h, k
+			case <-time.After(bnLong()):
+				bnExpired()
+				e.cst[s] = 3
+				out.Act.Res, out.Diag = "blocked", bnDump()
+			}
+		}
+		e.src.mu.Lock()
+		out.Act.K = e.src.lastTip
+		e.src.mu.Unlock()
+		if out.Act.Res == "ok" {
+			e.src.waitFor(bnBlockT, func() bool { return e.src.loops > c0+1 })
+		}
 	case "Emit":
 		out.Act.Res = "ok"
 		for k := e.emitted + 1; k <= a.K; k++ {
@@ -560,6 +646,9 @@ func bnRunPath(p bnPathIn) (out bnPathOut) {
 		if st.Act.Op != "Quiesce" && st.Act.S > n {
 			n = st.Act.S
 		}
+		if st.Act.S2 > n {
+			n = st.Act.S2
+		}
 	}
 	src := bnNewSource(1)
 	e := &bnEnv{m: NewSubscriptionManager(src), src: src, n: n, subs: make([]*Subscription, n),
@@ -593,6 +682,10 @@ func bnRunPath(p bnPathIn) (out bnPathOut) {
 			break
 		}
 		if op == "Subscribe" && (s < 0 || s >= n || e.cst[s] != 0) {
+			break
+		}
+		if op == "Subscribe2" && (s < 0 || s >= n || e.cst[s] != 0 || st.Act.S2 < 1 || st.Act.S2 > n ||
+			e.cst[st.Act.S2-1] != 0 || e.stopped) {
 			break
 		}
 		if op == "Emit" && e.stopped {
@@ -710,7 +803,12 @@ func bnReadResults(fn string) ([]bnPathOut, error) {
 
 // bnChildren runs items 0..n-1 of the given mode in child processes; child w
 // executes the items i with i % nw == w, in increasing order.
-func bnChildren(t *testing.T, mode string, n int, scratch string) []bnPathOut {
+func bnChildren(t *testing.T, mode string, n int, scratch string, outFile string) {
+	final, err := os.Create(outFile)
+	if err != nil {
+		t.Fatal(err)
+	}
+	defer final.Close()
 	nw := runtime.NumCPU()
 	if v, err := strconv.Atoi(os.Getenv("VERIF_WORKERS")); err == nil && v > 0 {
 		nw = v
@@ -719,7 +817,6 @@ func bnChildren(t *testing.T, mode string, n int, scratch string) []bnPathOut {
 		nw = n
 	}
 	var mu sync.Mutex
-	var all []bnPathOut
 	var crashes int32
 	var wg sync.WaitGroup
 	for w := 0; w < nw; w++ {
@@ -804,20 +901,24 @@ func bnChildren(t *testing.T, mode string, n int, scratch string) []bnPathOut {
 				}
 				start = idx + 1
 			}
-			res, err := bnReadResults(outFn)
-			if err != nil {
-				extra = append(extra, bnPathOut{ID: -1, Steps: []bnStepOut{}, Error: "reading child results: " + err.Error(),
-					InitObs: bnObs{Sub: []int{}, Recv: [][]int{}, Closed: []int{}, Len: []int{}}})
-			}
+			// results are passed on as they are (the child wrote one JSON line per item)
 			mu.Lock()
-			all = append(all, res...)
-			all = append(all, extra...)
-			mu.Unlock()
+			defer mu.Unlock()
+			if cf, err := os.Open(outFn); err == nil {
+				_, err = io.Copy(final, cf)
+				cf.Close()
+				if err != nil {
+					extra = append(extra, bnPathOut{ID: -1, Steps: []bnStepOut{}, Error: "copying child results: " + err.Error(),
+						InitObs: bnObs{Sub: []int{}, Recv: [][]int{}, Closed: []int{}, Len: []int{}}})
+				}
+			}
+			for i := range extra {
+				b, _ := json.Marshal(&extra[i])
+				final.Write(append(b, '\n'))
+			}
 		}(w)
 	}
 	wg.Wait()
-	sort.SliceStable(all, func(a, b int) bool { return all[a].ID < all[b].ID })
-	return all
 }
 
 type bnFreeCfg struct {
@@ -1000,7 +1101,7 @@ func TestVerifBlockNtfnsReplay(t *testing.T) {
 	if err != nil {
 		t.Fatal(err)
 	}
-	bnWrite(t, outFn, bnChildren(t, "replay", n, bnScratch(t)))
+	bnChildren(t, "replay", n, bnScratch(t), outFn)
 }
 
 // ---------------------------------------------------------------------------
@@ -1131,6 +1232,9 @@ func bnFreeRun(id int, seed int64, minEv, maxEv int, profile string) (out bnPath
 	if rng.Intn(2) == 0 && nev >= 8 {
 		at := n + rng.Intn(nev/2)
 		first := rng.Intn(2) // with or without the early subscriber
+		if first == 0 {
+			early = true // nobody subscribes before the events are out
+		}
 		for s := first; s < n; s++ {
 			plans[s].StartAfter, plans[s].HMode = at, 4
 		}
@@ -1420,5 +1524,5 @@ func TestVerifBlockNtfnsFree(t *testing.T) {
 	if outFn == "" || runs <= 0 || os.Getenv("VERIF_CHILD") != "" {
 		t.Skip("VERIF_OUT / VERIF_FREE_RUNS not set")
 	}
-	bnWrite(t, outFn, bnChildren(t, "free", runs, bnScratch(t)))
+	bnChildren(t, "free", runs, bnScratch(t), outFn)
 }
